@@ -14,6 +14,8 @@ import (
 	"github.com/LiskHQ/lisk-engine/pkg/p2p"
 	"github.com/LiskHQ/lisk-engine/pkg/txpool"
 
+	"pgregory.net/rapid"
+
 	"verif/sim/simkit"
 )
 
@@ -85,6 +87,12 @@ func (f *FuzzPeer) pick() *Node {
 		return nil
 	}
 	return ups[simkit.Int(f.W.T, "fuzznode", 0, len(ups)-1)]
+}
+
+// MutateBytes applies one of the hostile peer's corruptions to a message outside a running world (the decoder gallery of
+// C09 uses the same seeded mutators as the simulated peer).
+func MutateBytes(t *rapid.T, b []byte) ([]byte, string) {
+	return (&FuzzPeer{W: &World{T: t}}).mutate(b)
 }
 
 // mutate returns a corrupted copy and the name of the corruption.
